@@ -239,6 +239,8 @@ def c01_rf18(run):
     rf_flow.rf52(run)
     rf_flow.rf54(run)
     rf_flow.rf55(run)
+    rf_flow.rf62(run)
+    run.min_instances('RF62', 4)
 
 
 def c04_rf18(run):
@@ -382,6 +384,8 @@ def c02_rf9(run):
     rf_x86.rf7i(run)
     run.min_instances('RF7i', 40)
     rf_x86.rf9m(run)
+    rf_x86.rf63(run)
+    run.min_instances('RF63', 5)
 
 
 def c02_rf26(run):
